@@ -1329,6 +1329,13 @@ impl OcflRepo {
             logical_path
         );
 
+        if fs::symlink_metadata(file.as_ref())?.file_type().is_symlink() {
+            // Renaming a link would store the link in the object rather than the file's content
+            self.copy_file(file.as_ref(), logical_path, inventory)?;
+            fs::remove_file(file.as_ref())?;
+            return Ok(());
+        }
+
         let digest = inventory
             .digest_algorithm
             .hash_hex(&mut File::open(file.as_ref())?)?;
